@@ -50,6 +50,22 @@ Proof.
   destruct (anyM _ (x :: rs')) as [[|]|]; auto with tru.
 Qed.
 
+Lemma contract_go_has : forall all items done c' v, contractible ct c' = true -> complete ct all c' = true ->
+  In (TLit c' v) items -> In (TInst c' []) (contract_go ct all items done) \/ mem_cid c' done = true.
+Proof.
+  induction items as [|a r IH]; intros done c' v C1 C2 Hin; [destruct Hin|].
+  simpl. destruct Hin as [->|Hin].
+  - rewrite C1, C2. simpl. destruct (mem_cid c' done) eqn:M; auto. left. left. reflexivity.
+  - destruct a; try (destruct (IH done c' v C1 C2 Hin) as [H|H]; [left; right; auto|right; auto]; fail).
+    destruct (contractible ct c && complete ct all c).
+    + destruct (mem_cid c done) eqn:M.
+      * destruct (IH done c' v C1 C2 Hin) as [H|H]; auto.
+      * destruct (IH (c :: done) c' v C1 C2 Hin) as [H|H]; [left; right; auto|].
+        simpl in H. apply orb_true_iff in H. destruct H as [H|H]; auto.
+        apply Pos.eqb_eq in H. subst. left. left. reflexivity.
+    + destruct (IH done c' v C1 C2 Hin) as [H|H]; [left; right; auto|right; auto].
+Qed.
+
 Definition kgood (np : bool) (k : kind) : Prop := k_nopromo k = np /\ k_notparams k = false /\ kind_ok k = true.
 
 Definition CompA (h : nat) : Prop := forall np l r, leh ct np h l r -> frag2 ct l = true -> frag2 ct r = true ->
@@ -105,7 +121,7 @@ Proof.
   - (* None *)
     destruct r as [| | |d ys|d w|rs|]; try (simpl in Fr; discriminate); try contradiction; try apply trueish_true.
     + subst d. rewrite Pos.eqb_refl. apply trueish_true.
-    + simpl is_union. cbn iota. assert (T := Hau TNone rs eq_refl eq_refl Fr L).
+    + simpl is_union. cbn iota. destruct L as [L|[]]. assert (T := Hau TNone rs eq_refl eq_refl Fr L).
       destruct (anyM _ rs) as [[|]|]; auto with tru; try (specialize (T _ eq_refl); discriminate).
   - (* Inst c xs *)
     destruct r as [| | |d ys|d w|rs|]; try (simpl in Fr; discriminate); try contradiction.
@@ -154,13 +170,21 @@ Proof.
         destruct (anyM _ (c_mro (cls_of ct c))) as [[|]|]; auto with tru; try (specialize (T _ eq_refl); discriminate).
       * match goal with |- trueish (match ?a with _ => _ end) => destruct a as [[|]|] end; auto with tru.
     + (* Inst / Union *)
-      simpl is_union. cbn iota. assert (T := Hau (TInst c xs) rs eq_refl Fl Fr L).
-      destruct (anyM _ rs) as [[|]|]; auto with tru; try (specialize (T _ eq_refl); discriminate).
+      simpl is_union. cbn iota. destruct L as [L|[Cc [c' [C1 [C2 [[v Hv] Lc]]]]]].
+      * assert (T := Hau (TInst c xs) rs eq_refl Fl Fr L).
+        destruct (anyM _ rs) as [[|]|]; auto with tru; try (specialize (T _ eq_refl); discriminate).
+      * destruct (anyM _ rs) as [[|]|]; auto with tru. rewrite Cc.
+        assert (Frs := Fr). rewrite (flatten_atoms2 ct rs Frs).
+        destruct (Hitems _ _ Fr Hv) as [_ Fv].
+        assert (Hin : In (TInst c' []) (contract ct rs)).
+        { unfold contract. destruct (contract_go_has rs rs [] c' v C1 C2 Hv) as [H|H]; [auto|discriminate]. }
+        apply (anyM_trueish _ _ _ (TInst c' []) Hin). apply (HA np (TInst c xs) (TInst c' [])); auto.
+        eapply lit_inst_frag; eauto.
   - (* Lit *)
     destruct r as [| | |d ys|d w|rs|]; try (simpl in Fr; discriminate); try contradiction.
     + apply (HA np (TInst c []) (TInst d ys)); auto. eapply lit_inst_frag; eauto.
     + destruct L; subst. rewrite ty_eqb_refl in E. discriminate.
-    + simpl is_union. cbn iota. assert (T := Hau (TLit c v) rs eq_refl Fl Fr L).
+    + simpl is_union. cbn iota. destruct L as [L|[]]. assert (T := Hau (TLit c v) rs eq_refl Fl Fr L).
       destruct (anyM _ rs) as [[|]|]; auto with tru; try (specialize (T _ eq_refl); discriminate).
   - (* Union ls *)
     assert (Hit : forall it, In it ls -> trueish (sub ct lk m k it r)).
